@@ -437,4 +437,306 @@ theorem wSearch_ok_of_kept {d : WDev} {r : WReq} (hc : wSearch d r ≠ .crash)
     obtain ⟨_, hall⟩ := foldl_wMerge_rejected _ _ e
     rcases hall _ (List.mem_map.mpr ⟨t, ht, rfl⟩) with h1 | h1 <;> rw [hx] at h1 <;> cases h1
 
+/-! ## when the ZeroDivisionError cannot happen; evaluating the search from its first exact hit -/
+
+theorem SQ.floor_le_round (a : SQ) : a.floor ≤ a.round := by
+  unfold SQ.round
+  simp only
+  split
+  · exact Int.le_refl _
+  · split
+    · omega
+    · split <;> omega
+
+/-- `round(vco/f) >= floor(vco/f)`: any integer `k <= vco/f` is a lower bound of the chosen divider. -/
+theorem wOdiv_ge {vco f : Q} {k : Nat} (hf : 0 < f.num) (hd : 0 < vco.den)
+    (h : k * (vco.den * f.num) ≤ vco.num * f.den) : k ≤ wOdiv vco f := by
+  unfold wOdiv
+  rw [if_neg (by omega)]
+  have h1 := SQ.floor_le_round (vco.div f).toSQ
+  have h2 : (vco.div f).toSQ.floor = ((vco.num * f.den / (vco.den * f.num) : Nat) : Int) := by
+    unfold SQ.floor Q.toSQ Q.div
+    simp only
+    exact (Int.natCast_ediv _ _).symm
+  have h3 : k ≤ vco.num * f.den / (vco.den * f.num) :=
+    (Nat.le_div_iff_mul_le (Nat.mul_pos hd hf)).mpr h
+  omega
+
+
+/-- No ZeroDivisionError when every requested frequency is positive and not above the lower VCO bound
+    `vco_min*(1+vco_margin)` (then `vco/f >= 1` on every in-window triple, so `round(vco/f) >= 1`). -/
+theorem wSearch_no_crash {d : WDev} {r : WReq} (hc : 0 < r.clkin.den) (hl : 0 < (wLo d r).den)
+    (ho : ∀ o ∈ r.outs, 0 < o.freq.num ∧ o.freq.le (wLo d r) = true) : wSearch d r ≠ .crash := by
+  intro h
+  obtain ⟨t, ht, hv, o, hoo, hz⟩ := wSearch_crash_iff.mp h
+  obtain ⟨m1, _, _, _⟩ := mem_wGrid.mp ht
+  rw [mem_pyRange] at m1
+  obtain ⟨hf, hle⟩ := ho o hoo
+  rw [← wWindow_eq] at hv
+  simp only [Bool.and_eq_true] at hv
+  have hlo := hv.1
+  generalize hvco : wVco r.clkin t.1 t.2.1 t.2.2 = vco at *
+  have hd : 0 < vco.den := by
+    rw [← hvco]
+    show 0 < r.clkin.den * t.1
+    exact Nat.mul_pos hc (by omega)
+  have key : 1 * (vco.den * o.freq.num) ≤ vco.num * o.freq.den := by
+    unfold Q.le at hle hlo
+    have a := of_decide_eq_true hle
+    have b := of_decide_eq_true hlo
+    generalize wLo d r = lo at *
+    have c : o.freq.num * vco.den * lo.den ≤ vco.num * o.freq.den * lo.den := by
+      calc o.freq.num * vco.den * lo.den = (o.freq.num * lo.den) * vco.den := by ring
+        _ ≤ (lo.num * o.freq.den) * vco.den := Nat.mul_le_mul_right _ a
+        _ = (lo.num * vco.den) * o.freq.den := by ring
+        _ ≤ (vco.num * lo.den) * o.freq.den := Nat.mul_le_mul_right _ b
+        _ = vco.num * o.freq.den * lo.den := by ring
+    have := Nat.le_of_mul_le_mul_right c hl
+    calc 1 * (vco.den * o.freq.num) = o.freq.num * vco.den := by ring
+      _ ≤ _ := this
+  have := wOdiv_ge hf hd key
+  omega
+
+theorem foldl_wMerge_zero {x : WCfg × Q} (hz : x.2.num = 0) : ∀ (xs : List (Res (WCfg × Q))),
+    .crash ∉ xs → xs.foldl wMerge (.ok x) = .ok x
+  | [], _ => rfl
+  | y :: ys, h => by
+    simp only [List.mem_cons, not_or] at h
+    simp only [List.foldl_cons]
+    have : wMerge (.ok x) y = .ok x := by
+      unfold wMerge
+      cases y with
+      | crash => exact absurd rfl h.1
+      | ok y =>
+        simp only
+        have : y.2.lt x.2 = false := by unfold Q.lt; rw [hz]; simp
+        rw [this]; rfl
+      | rejected => rfl
+      | assertion => rfl
+    rw [this]
+    exact foldl_wMerge_zero hz ys h.2
+
+theorem foldl_wMerge_rejected_all : ∀ (xs : List (Res (WCfg × Q))), (∀ y ∈ xs, y = .rejected) →
+    xs.foldl wMerge .rejected = .rejected
+  | [], _ => rfl
+  | y :: ys, h => by
+    simp only [List.foldl_cons]
+    rw [h y List.mem_cons_self]
+    exact foldl_wMerge_rejected_all ys (fun z hz => h z (List.mem_cons_of_mem _ hz))
+
+/-- A grid point with `diff` sum 0 preceded only by discarded points is the answer (nothing can be strictly better,
+    and later ties do not replace it), provided no exception is raised. -/
+theorem wSearch_of_first_zero {d : WDev} {r : WReq} {n : Nat} {t : Nat × Nat × Nat} {x : WCfg × Q}
+    (hc : wSearch d r ≠ .crash) (hn : (wGrid d r)[n]? = some t)
+    (hpre : ∀ u ∈ (wGrid d r).take n, wTryT d r u = .rejected)
+    (ht : wTryT d r t = .ok x) (hz : x.2.num = 0) : wSearch d r = .ok x.1 := by
+  have hnc : .crash ∉ (wGrid d r).map (wTryT d r) := by
+    intro hm
+    apply hc
+    have : wSearchAcc d r = .crash := by
+      rw [wSearchAcc_eq_grid, foldl_wMerge_crash]; exact Or.inr hm
+    unfold wSearch; rw [this]; rfl
+  have hlt : n < (wGrid d r).length := by
+    rcases Nat.lt_or_ge n (wGrid d r).length with h | h
+    · exact h
+    · rw [List.getElem?_eq_none h] at hn; cases hn
+  have hsplit : wGrid d r = (wGrid d r).take n ++ t :: (wGrid d r).drop (n + 1) := by
+    have e : (wGrid d r)[n] = t := by
+      rw [List.getElem?_eq_getElem hlt] at hn; exact Option.some.inj hn
+    rw [← e, List.getElem_cons_drop, List.take_append_drop]
+  unfold wSearch
+  rw [wSearchAcc_eq_grid]
+  rw [hsplit] at hnc ⊢
+  simp only [List.map_append, List.map_cons, List.foldl_append, List.foldl_cons, List.mem_append,
+    List.mem_cons, not_or] at hnc ⊢
+  rw [foldl_wMerge_rejected_all _ (by
+    intro y hy
+    obtain ⟨u, hu, rfl⟩ := List.mem_map.mp hy
+    exact hpre u hu)]
+  rw [ht]
+  have : wMerge .rejected (.ok x) = .ok x := rfl
+  rw [this, foldl_wMerge_zero hz _ hnc.2.2]
+  rfl
+
+/-! ## 3. negative witness (ODIV range unchecked) and non-vacuity, kernel-checked -/
+
+/-- `compute_config` on a GW5A-25, 50 MHz in, 5 MHz out: returns ODIV0_SEL = 160.  (The 14 grid points before
+    (1,1,16) are evaluated by the kernel; the rest of the 15876-point grid is handled by `wSearch_of_first_zero`:
+    the diff sum is already 0 and `wSearch_no_crash` excludes the exception.) -/
+theorem wSearch_witness : wSearch gw5a25 wWitReq = .ok wWitCfg :=
+  wSearch_of_first_zero (n := 14) (t := (1, 1, 16)) (x := (wWitCfg, ⟨0, 800000000⟩))
+    (wSearch_no_crash (by decide) (by decide) (by decide +kernel))
+    (by decide +kernel) (by decide +kernel) (by decide +kernel) rfl
+
+/-- … which is outside the primitive's ODIVx_SEL range 1..128: the returned configuration is NOT valid, although it
+    satisfies everything else. -/
+theorem wWitness_not_valid : ¬ WValid gw5a25 wWitReq wWitCfg := by decide +kernel
+
+theorem wWitness_valid_no_odiv : WValidNoOdiv gw5a25 wWitReq wWitCfg := wSearch_sound wSearch_witness
+
+example : ∃ c, wSearch gw5a25 wWitReq = .ok c ∧ WValidNoOdiv gw5a25 wWitReq c ∧ ¬ WValid gw5a25 wWitReq c ∧
+    (c.outs.map (·.odiv)) = [160] :=
+  ⟨wWitCfg, wSearch_witness, wWitness_valid_no_odiv, wWitness_not_valid, rfl⟩
+
+/-- For this request no returned configuration is valid (the search is a function: it returns `wWitCfg`). -/
+theorem wWitness_all_invalid {c : WCfg} (h : wSearch gw5a25 wWitReq = .ok c) : ¬ WValid gw5a25 wWitReq c := by
+  rw [wSearch_witness] at h
+  cases h
+  exact wWitness_not_valid
+
+/-- Non-vacuity: an accepted request whose configuration is fully valid. -/
+theorem wSearch_ok_example : wSearch gw5a25 wOkReq = .ok wOkCfg :=
+  wSearch_of_first_zero (n := 14) (t := (1, 1, 16)) (x := (wOkCfg, ⟨0, 800000000⟩))
+    (wSearch_no_crash (by decide) (by decide) (by decide +kernel))
+    (by decide +kernel) (by decide +kernel) (by decide +kernel) rfl
+
+example : WValid gw5a25 wOkReq wOkCfg := wSearch_sound_partial wSearch_ok_example (by decide)
+example : WValid gw5a25 wOkReq wOkCfg := by decide +kernel
+
+/-- A crash witness: adding a 4 GHz output (> 2 * max VCO) makes `round(vco/f) = 0`. -/
+example : wTryT gw5a25 ⟨⟨50000000, 1⟩, ⟨0, 1⟩, [⟨⟨4000000000, 1⟩, ⟨0, 1⟩, wMargin1e2⟩]⟩ (1, 1, 16) = .crash := by
+  decide +kernel
+
+/-! ## 4. optimality of the best-of pass -/
+
+theorem Q.le_refl' (a : Q) : a.le a = true := by unfold Q.le; simp
+
+theorem Q.le_trans' {a b c : Q} (hb : 0 < b.den) (h1 : a.le b = true) (h2 : b.le c = true) : a.le c = true := by
+  unfold Q.le at *
+  have x := of_decide_eq_true h1
+  have y := of_decide_eq_true h2
+  apply decide_eq_true
+  have k : a.num * c.den * b.den ≤ c.num * a.den * b.den := by
+    calc a.num * c.den * b.den = (a.num * b.den) * c.den := by ring
+      _ ≤ (b.num * a.den) * c.den := Nat.mul_le_mul_right _ x
+      _ = (b.num * c.den) * a.den := by ring
+      _ ≤ (c.num * b.den) * a.den := Nat.mul_le_mul_right _ y
+      _ = c.num * a.den * b.den := by ring
+  exact Nat.le_of_mul_le_mul_right k hb
+
+theorem Q.le_of_lt' {a b : Q} (h : a.lt b = true) : a.le b = true := by
+  unfold Q.lt at h; unfold Q.le
+  have := of_decide_eq_true h
+  exact decide_eq_true (Nat.le_of_lt this)
+
+theorem Q.le_of_not_lt' {a b : Q} (h : ¬ a.lt b = true) : b.le a = true := by
+  rw [← Q.not_lt_eq_le]; simpa using h
+
+theorem foldl_wMerge_best : ∀ (xs : List (Res (WCfg × Q))) (acc : Res (WCfg × Q)) (x : WCfg × Q),
+    (∀ y, .ok y ∈ xs → 0 < y.2.den) → (∀ b, acc = .ok b → 0 < b.2.den) → xs.foldl wMerge acc = .ok x →
+    (∀ b, acc = .ok b → x.2.le b.2 = true) ∧ ∀ y, .ok y ∈ xs → x.2.le y.2 = true
+  | [], acc, x, _, _, h => by
+    simp only [List.foldl_nil] at h
+    subst h
+    exact ⟨fun b hb => by cases hb; exact Q.le_refl' _, fun y hy => by cases hy⟩
+  | y :: ys, acc, x, hp, ha, h => by
+    simp only [List.foldl_cons] at h
+    have hp' : ∀ z, .ok z ∈ ys → 0 < z.2.den := fun z hz => hp z (List.mem_cons_of_mem _ hz)
+    have ha' : ∀ b, wMerge acc y = .ok b → 0 < b.2.den := by
+      intro b hb
+      rcases wMerge_ok hb with h1 | h1
+      · exact ha b h1
+      · exact hp b (by rw [h1]; exact List.mem_cons_self)
+    obtain ⟨i1, i2⟩ := foldl_wMerge_best ys _ x hp' ha' h
+    have fin : (∀ b, acc = .ok b → x.2.le b.2 = true) ∧ (∀ z, y = .ok z → x.2.le z.2 = true) := by
+      cases acc with
+      | crash =>
+        have : wMerge .crash y = .crash := rfl
+        rw [this, foldl_wMerge_crash_acc] at h; cases h
+      | ok b =>
+        have hbd := ha b rfl
+        cases y with
+        | crash =>
+          have : wMerge (.ok b) .crash = .crash := rfl
+          rw [this, foldl_wMerge_crash_acc] at h; cases h
+        | ok z =>
+          have hzd := hp z List.mem_cons_self
+          by_cases hlt : z.2.lt b.2 = true
+          · have e : wMerge (.ok b) (.ok z) = .ok z := by simp [wMerge, hlt]
+            have xz := i1 z e
+            refine ⟨fun b' hb' => ?_, fun z' hz' => ?_⟩
+            · cases hb'; exact Q.le_trans' hzd xz (Q.le_of_lt' hlt)
+            · cases hz'; exact xz
+          · have e : wMerge (.ok b) (.ok z) = .ok b := by simp [wMerge, hlt]
+            have xb := i1 b e
+            refine ⟨fun b' hb' => ?_, fun z' hz' => ?_⟩
+            · cases hb'; exact xb
+            · cases hz'; exact Q.le_trans' hbd xb (Q.le_of_not_lt' hlt)
+        | rejected =>
+          have e : wMerge (.ok b) .rejected = .ok b := rfl
+          exact ⟨fun b' hb' => by cases hb'; exact i1 b e, fun z hz => by cases hz⟩
+        | assertion =>
+          have e : wMerge (.ok b) .assertion = .ok b := rfl
+          exact ⟨fun b' hb' => by cases hb'; exact i1 b e, fun z hz => by cases hz⟩
+      | rejected =>
+        refine ⟨fun b hb => (by cases hb), fun z hz => ?_⟩
+        subst hz
+        exact i1 z rfl
+      | assertion =>
+        refine ⟨fun b hb => (by cases hb), fun z hz => ?_⟩
+        subst hz
+        exact i1 z rfl
+    refine ⟨fin.1, ?_⟩
+    intro z hz
+    rcases List.mem_cons.mp hz with hz | hz
+    · exact fin.2 z hz.symm
+    · exact i2 z hz
+
+theorem wSum_den_pos : ∀ (l : List WOut) (s : Q), 0 < s.den → (∀ w ∈ l, 0 < w.diff.den) →
+    0 < (l.foldl (fun s o => s.add o.diff) s).den
+  | [], s, hs, _ => hs
+  | w :: ws, s, hs, h => by
+    simp only [List.foldl_cons]
+    apply wSum_den_pos ws
+    · show 0 < s.den * w.diff.den
+      exact Nat.mul_pos hs (h w List.mem_cons_self)
+    · exact fun w' hw' => h w' (List.mem_cons_of_mem _ hw')
+
+theorem wOuts_diff_den_pos {vco : Q} (hv : 0 < vco.den) : ∀ {outs : List Out} {l : List WOut},
+    (∀ o ∈ outs, 0 < o.freq.num ∧ 0 < o.freq.den) → wOuts vco outs = .ok l → ∀ w ∈ l, 0 < w.diff.den
+  | [], l, _, h => by simp [wOuts] at h; subst h; intro w hw; cases hw
+  | o :: os, l, ho, h => by
+    unfold wOuts at h
+    obtain ⟨a, l', h1, h2, rfl⟩ := consW_ok h
+    intro w hw
+    rcases List.mem_cons.mp hw with rfl | hw
+    · obtain ⟨p1, _, _, p4, _⟩ := wOut_ok h1
+      obtain ⟨f1, f2⟩ := ho o List.mem_cons_self
+      rw [p4]
+      show 0 < vco.den * w.odiv * o.freq.den * o.freq.num
+      exact Nat.mul_pos (Nat.mul_pos (Nat.mul_pos hv p1) f2) f1
+    · exact wOuts_diff_den_pos hv (fun o' ho' => ho o' (List.mem_cons_of_mem _ ho')) h2 w hw
+
+/-- 4. Optimality: the returned candidate's diff sum is minimal among ALL kept candidates of the grid
+    (denominators of the inputs positive, requested frequencies positive). -/
+theorem wSearch_best {d : WDev} {r : WReq} {x : WCfg × Q} (hc : 0 < r.clkin.den)
+    (ho : ∀ o ∈ r.outs, 0 < o.freq.num ∧ 0 < o.freq.den) (h : wSearchAcc d r = .ok x) :
+    (∃ t ∈ wGrid d r, wTryT d r t = .ok x) ∧
+    ∀ t ∈ wGrid d r, ∀ y, wTryT d r t = .ok y → x.2.le y.2 = true := by
+  rw [wSearchAcc_eq_grid] at h
+  have hpos : ∀ y, .ok y ∈ (wGrid d r).map (wTryT d r) → 0 < y.2.den := by
+    intro y hy
+    obtain ⟨t, ht, he⟩ := List.mem_map.mp hy
+    obtain ⟨m1, _, _, _⟩ := mem_wGrid.mp ht
+    rw [mem_pyRange] at m1
+    obtain ⟨_, _, _, _, g5, g6⟩ := wTry_ok he
+    rw [g6]
+    have hv : 0 < (wVco r.clkin t.1 t.2.1 t.2.2).den := by
+      show 0 < r.clkin.den * t.1
+      exact Nat.mul_pos hc (by omega)
+    exact wSum_den_pos _ _ (by decide) (wOuts_diff_den_pos hv ho g5)
+  obtain ⟨_, h2⟩ := foldl_wMerge_best _ _ x hpos (fun b hb => by cases hb) h
+  refine ⟨?_, fun t ht y hy => h2 y (List.mem_map.mpr ⟨t, ht, hy⟩)⟩
+  rcases foldl_wMerge_ok _ _ _ h with h0 | h0
+  · cases h0
+  · obtain ⟨t, ht, he⟩ := List.mem_map.mp h0
+    exact ⟨t, ht, he⟩
+
+/-
+  wSearch_first_open (not proved, no time): the returned candidate is the FIRST grid point attaining the minimal diff
+  sum, i.e.  wSearchAcc d r = .ok x → ∃ pre suf, (wGrid d r).map (wTryT d r) = pre ++ .ok x :: suf ∧
+  ∀ y, .ok y ∈ pre → x.2.lt y.2 = true   (same positivity hypotheses as `wSearch_best`; needs lt/le transitivity).
+  The special case "first grid point with diff sum exactly 0" IS proved: `wSearch_of_first_zero`.
+-/
+
 end Litex.Clock
